@@ -10,7 +10,7 @@ ENGINE = "E2-bfs-clock-automaton"
 RULE = ("small-vocabulary configurations (2 pitches, values {12,24}, steps {12,24}, signatures 3/8 and 4/8, 2 tracks) in all "
         "16 flag sets x imputation on/off: (i) the complete TREE of all token streams up to the length bound, every node "
         "checked three ways (reference clock model vs get_info vs the note detokenise creates for the last token, found by "
-        "multiset difference with the parent stream); (ii) the GRAPH of reference-clock states reachable within a 3-bar "
+        "multiset difference with the parent stream); (ii) the GRAPH of reference-clock states reachable within a 2-bar (quick) / 3-bar (thorough) "
         "horizon, one representative stream per state, every (state, token) edge replayed on the implementation; (iii) "
         "streams produced by tokenise from valid pieces: in-bar times against the piece's bar grid, monotone times. "
         "non-trivial = a note token after a rest, bar or signature token")
@@ -34,17 +34,19 @@ def tok(fl, nt=2, small=True):
 
 
 def context(tier, seed):
-    return {"tier": tier, "maxlen": 4 if tier == "quick" else 5, "horizon": 3 * 96,
+    return {"tier": tier, "maxlen": 4 if tier == "quick" else 5, "horizon": (2 if tier == "quick" else 3) * 96,
             "bounds": {"max_stream_length": 4 if tier == "quick" else 5, "flag_sets": 16, "imputation": [False, True],
-                       "graph_horizon_ticks": 3 * 96, "vocabulary": "12-16 tokens per configuration"}}
+                       "graph_horizon_ticks": (2 if tier == "quick" else 3) * 96, "vocabulary": "12-16 tokens per configuration (tree: 1 track in quick, 2 tracks in thorough; graph: 2 tracks)"}}
 
 
 def units(ctx):
+    quick = ctx["tier"] == "quick"
     for fi in range(16):
         for imp in (False, True):
-            t = tok(FL[fi])
-            for a in t.dictionary:
-                yield ("tree", fi, imp, a)
+            if not (quick and imp and fi % 5):       # quick: imputation on for 4 of the 16 flag sets
+                t = tok(FL[fi], nt=1 if quick else 2)
+                for a in t.dictionary:
+                    yield ("tree", fi, imp, a)
             yield ("graph", fi, imp)
     for fi in range(16):
         yield ("pieces", fi)
@@ -312,7 +314,8 @@ def run_unit(unit, acc, ctx):
     kind = unit[0]
     if kind == "tree":
         _, fi, imp, a = unit
-        run_tree(acc, tok(FL[fi]), {"fl": list(FL[fi]), "nt": 2, "small": True}, imp, [a], ctx["maxlen"])
+        nt = 1 if ctx["tier"] == "quick" else 2
+        run_tree(acc, tok(FL[fi], nt=nt), {"fl": list(FL[fi]), "nt": nt, "small": True}, imp, [a], ctx["maxlen"])
     elif kind == "tree6":
         _, fi, a, b = unit
         run_tree(acc, tok(FL[fi], nt=1), {"fl": list(FL[fi]), "nt": 1, "small": True}, False, [a, b], 6)
